@@ -36,8 +36,8 @@ func lhsChainFields(info *types.Info, e ast.Expr) []*types.Var {
 
 func c16(c *Ctx) {
 	r := c.R
-	r.Explanation = "Partial: the validate -> compare -> propose(+1) -> install chain and the single-writer discipline of the network configuration. (V1) handlePostConfig proposes only what toml.DecodeReader parsed without error, byte for byte; (V2) applyConfig proposes only on the false edge of revision != configRevision(), as a robust.Config message carrying the body and revision+1; (V3) the state machine installs the new configuration only on the nil-error edge of config.FromString, then sets the revision from the entry, under ConfigMu, and refreshes the cached expiration; (V4) IRCServer.Config is written only by the constructor, the Config arm, Unmarshal and GLINE (inside the state machine, so bans replicate) and is not aliased for writing elsewhere; (V5) every field of the configuration is part of the snapshot. Agreement of replicas under concurrent posts and TOML semantics are not decided."
-	r.Rules = []string{"C16.V1 parse before propose", "C16.V2 revision gate and increment", "C16.V3 install", "C16.V4 who writes the config", "C16.V5 config is replicated state"}
+	r.Explanation = "Partial: the validate -> compare -> propose(+1) -> install chain and the single-writer discipline of the network configuration. (V1) handlePostConfig proposes only what toml.DecodeReader parsed without error, byte for byte; (V2) applyConfig proposes only on the false edge of revision != configRevision(), as a robust.Config message carrying the body and revision+1; (V3) the state machine installs the new configuration only on the nil-error edge of config.FromString, then sets the revision from the entry, under ConfigMu, and refreshes the cached expiration; (V4) IRCServer.Config is written only by the constructor, the Config arm, Unmarshal and GLINE (inside the state machine, so bans replicate) and is not aliased for writing elsewhere; (V5) every field of the configuration is part of the snapshot; (V6) GET /config encodes the live configuration on every path and Banned() is a plain look-up in Config.Banned. Agreement of replicas under concurrent posts and TOML semantics are not decided."
+	r.Rules = []string{"C16.V1 parse before propose", "C16.V2 revision gate and increment", "C16.V3 install", "C16.V4 who writes the config", "C16.V5 config is replicated state", "C16.V6 readers use the configuration in force"}
 
 	amw := c.amwLike()
 	isAMW := func(fn *types.Func, _ *ast.CallExpr) bool { return amw[fn] }
@@ -456,6 +456,63 @@ func c16(c *Ctx) {
 					}
 				}
 			}
+		}
+	}
+
+	// V6: readers use the configuration in force, not a private copy or summary of it
+	if fi := c.MustFunc("api.(*HTTP).handleGetConfig"); fi != nil {
+		info := fi.Info()
+		g := c.Graph(fi)
+		isEnc := func(v *cfgx.Vertex) bool {
+			if v.Node == nil {
+				return false
+			}
+			found := false
+			for _, call := range astx.Calls(v.Node, false) {
+				for _, a := range call.Args {
+					if u, ok := ast.Unparen(a).(*ast.UnaryExpr); ok && u.Op == token.AND {
+						a = u.X
+					}
+					for _, f := range lhsChainFields(info, a) {
+						if f == cfgField && len(lhsChainFields(info, a)) == 1 {
+							found = true
+						}
+					}
+				}
+			}
+			return found
+		}
+		r.Check(g.DominatedBy(g.Exit, isEnc), "C16.V6", fi.Name(), "every response encodes the configuration in force", c.P.Pos(fi.Node().Pos()), "the encoder call on IRCServer.Config is on every path to the exit",
+			"GET /config can answer without encoding the live configuration (e.g. from a cache keyed by revision): GLINE adds bans without raising the revision, so an operator who edits and posts that answer silently removes replicated bans")
+	}
+	if fi := c.MustFunc("ircserver.(*IRCServer).Banned"); fi != nil {
+		info := fi.Info()
+		g := c.Graph(fi)
+		nRet := 0
+		for _, rv := range g.Returns() {
+			rs := rv.Node.(*ast.ReturnStmt)
+			if len(rs.Results) != 1 {
+				continue
+			}
+			nRet++
+			e := rs.Results[0]
+			if d := uniqueDef(info, fi.Node(), e); d != nil {
+				e = d
+			}
+			through := false
+			for _, f := range lhsChainFields(info, e) {
+				if f == cfgField {
+					through = true
+				}
+			}
+			if _, isIdx := ast.Unparen(e).(*ast.IndexExpr); !isIdx {
+				through = false
+			}
+			r.Check(through, "C16.V6", fi.Name(), "the ban verdict is a look-up in the replicated ban table", c.P.Pos(rs.Pos()), "returns IRCServer.Config.Banned[...]",
+				"Banned() answers without consulting Config.Banned (e.g. a fast path on a counter that only GLINE on this object maintains): a replica restored from a snapshot or configured with a [Banned] table admits a session the others delete — replicas diverge")
+		}
+		if nRet == 0 {
+			r.Break("C16.V6: no return found in IRCServer.Banned")
 		}
 	}
 
